@@ -875,6 +875,11 @@ struct Probe { id: u16, ok: bool }
 impl PartialEq for Probe { fn eq(&self, _o: &Probe) -> bool { true } }
 const P_EPS: f64 = 0.3; const P_REL: f64 = 0.7; const P_ULPS: u32 = 11;
 const P_DEFAULTS: (f64, f64, u32) = (0.125, 0.5, 7);
+/// An operation the approx lifts have no business calling: negation "repairs" a failing element (ok = true), so a lifted predicate that also
+/// accepts a negated operand shows as true-although-an-element-fails.  (The impl also keeps this harness compiling if a change narrows an
+/// approx impl's bound to `T: Neg`; that narrowing itself is reported by the digest program of the feature matrix, which uses an element
+/// type that implements the three approx traits and nothing else.)
+impl std::ops::Neg for Probe { type Output = Probe; fn neg(self) -> Probe { Probe { id: self.id, ok: true } } }
 impl Probe { fn pair(&self, o: &Probe) -> bool { self.ok && o.ok && self.id + 1000 == o.id } }
 impl AbsDiffEq for Probe { type Epsilon = f64; fn default_epsilon() -> f64 { P_DEFAULTS.0 } fn abs_diff_eq(&self, o: &Probe, e: f64) -> bool { self.pair(o) && e == P_EPS } }
 impl RelativeEq for Probe { fn default_max_relative() -> f64 { P_DEFAULTS.1 } fn relative_eq(&self, o: &Probe, e: f64, m: f64) -> bool { self.pair(o) && e == P_EPS && m == P_REL } }
